@@ -57,12 +57,12 @@ def jacobi_def(kind):
     check('equals-definition', same(out, spec_over(JAC, n, (a, b), x), x, 'out'))
 
 
-def _simple(prop_name, path, F, nparams, cur, prev, dead, shift=0):
+def _simple(prop_name, path, F, nparams, cur, prev, dead, shift=0, also_cur=()):
     def h(kind):
         n = Int('n', 0)
         ps = tuple(Real('alpha') for _ in range(nparams))
         x = _x(kind)
-        inv = Rec3(F, (lambda env: (env['alpha'],)) if nparams else (lambda env: ()), 'x', cur, prev, dead=dead, shift=shift)
+        inv = Rec3(F, (lambda env: (env['alpha'],)) if nparams else (lambda env: ()), 'x', cur, prev, dead=dead, shift=shift, also_cur=also_cur)
         with cut_loops(path, {0: inv}) as f:
             out = f(n, *ps, x)
         check('equals-definition', same(out, spec_over(F, n, ps, x), x, 'out'))
@@ -70,7 +70,295 @@ def _simple(prop_name, path, F, nparams, cur, prev, dead, shift=0):
     return harness('C07', prop_name, variants=XK, fuc=[path])(h)
 
 
-_simple('hermite_He/def', PH + 'hermite_He', HE, 0, 'Pnm1', 'Pnm2', ('Pn',))
-_simple('hermite_H/def', PH + 'hermite_H', HH, 0, 'Pnm1', 'Pnm2', ('Pn',))
-_simple('dickson1/def', PD + 'dickson1', DICK1, 1, 'Pnm1', 'Pnm2', ('Pn', '_'))
-_simple('dickson2/def', PD + 'dickson2', DICK2, 1, 'Pnm1', 'Pnm2', ('Pn', '_'))
+_simple('hermite_He/def', PH + 'hermite_He', HE, 0, 'Pnm1', 'Pnm2', (), also_cur=('Pn',))
+_simple('hermite_H/def', PH + 'hermite_H', HH, 0, 'Pnm1', 'Pnm2', (), also_cur=('Pn',))
+_simple('dickson1/def', PD + 'dickson1', DICK1, 1, 'Pnm1', 'Pnm2', ('_',), also_cur=('Pn',))
+_simple('dickson2/def', PD + 'dickson2', DICK2, 1, 'Pnm1', 'Pnm2', ('_',), also_cur=('Pn',))
+
+
+_simple('laguerre/def', PL + 'laguerre', LAG, 1, 'Ln', 'Lnm1', ('n', 'A', 'B'), also_cur=('Lnp1',))
+
+
+# ---------------------------------------------------------------------------------- Legendre
+@harness('C07', 'legendre/def', variants=XK, fuc=['prysm.polynomials.legendre.legendre'])
+def legendre_def(kind):
+    """legendre(n, x) = P_n^(0,0)(x) (callee jacobi = its contract), and P^(0,0) obeys Bonnet's recurrence
+    (n+1)P_{n+1} = (2n+1) x P_n - n P_{n-1} (lemma/legendre-bonnet)."""
+    n = Int('n', 0)
+    x = _x(kind)
+    with stub('prysm.polynomials.legendre', 'jacobi', lambda n_, a, b, x_: spec_over(JAC, n_, (a, b), x_)):
+        out = call('prysm.polynomials.legendre.legendre', n, x)
+    check('is-jacobi-00', same(out, spec_over(JAC, n, (0, 0), x), x, 'out'))
+
+
+@lemma('C07', 'lemma/legendre-bonnet')
+def bonnet():
+    """DLMF 18.9.2 at alpha = beta = 0 is Bonnet's recurrence: A_n = (2n+1)/(n+1), B_n = 0, C_n = n/(n+1)  (n >= 1)"""
+    n = Int('n', 1)
+    A, B, C = jacobi_abc(n, 0, 0)
+    check('A', A == (2 * n + 1) / (n + 1))
+    check('B', B == 0)
+    check('C', C == n / (n + 1))
+
+
+# ---------------------------------------------------------------------------------- Chebyshev (four kinds)
+HALF = 0.5
+CHEB = {
+    1: dict(a=-HALF, b=-HALF, T=CHEB_T, norm=lambda n: 1),               # T_n(1) = 1
+    2: dict(a=HALF, b=HALF, T=CHEB_U, norm=lambda n: n + 1),             # U_n(1) = n+1
+    3: dict(a=-HALF, b=HALF, T=CHEB_V, norm=lambda n: 1),                # V_n(1) = 1
+    4: dict(a=HALF, b=-HALF, T=CHEB_W, norm=lambda n: 2 * n + 1),        # W_n(1) = 2n+1
+}
+
+
+@lemma('C07', 'lemma/jacobi-at-one')
+def jac_at_one():
+    """P_n^(a,b)(1) = ((n+a)/n) P_{n-1}^(a,b)(1) for n >= 1 (hence P_n(1) > 0 for a > -1): induction on n."""
+    a, b = Real('alpha'), Real('beta')
+    assume(And(a > -1, b > -1))
+    check('base', JAC.at(1, a, b, 1) == (1 + a) * JAC.at(0, a, b, 1))
+    n = Int('n', 2)
+    assume(Implies(n == 2, And(a + b != 0, a + b != -1)) if False else True)
+    # induction hypothesis at n-1
+    assume(JAC.at(n - 2, a, b, 1) == (n - 1) * JAC.at(n - 1, a, b, 1) / (n - 1 + a))
+    check('step', n * JAC.at(n, a, b, 1) == (n + a) * JAC.at(n - 1, a, b, 1))
+
+
+def _cheb_lemma(kind):
+    d = CHEB[kind]
+    a, b, T, norm = d['a'], d['b'], d['T'], d['norm']
+
+    def lem():
+        x = Real('x')
+        J = lambda k, xx: JAC.at(k, a, b, xx)
+        # the identity is stated multiplicatively:  norm(n) * P_n(x) = P_n(1) * Cheb_n(x)
+        check('base-0', norm(0) * J(0, x) == J(0, 1) * T.at(0, x))
+        check('base-1', norm(1) * J(1, x) == J(1, 1) * T.at(1, x))
+        n = Int('n', 2)
+        for k in (n - 1, n - 2):
+            assume(J(k, x) == J(k, 1) * T.at(k, x) / norm(k))                       # induction hypotheses (solved form)
+        for k in (n, n - 1):
+            use_lemma('lemma/jacobi-at-one', J(k - 1, 1) == k * J(k, 1) / (k + a))
+        check('step', norm(n) * J(n, x) == J(n, 1) * T.at(n, x))
+    lem.__doc__ = ('norm(n) P_n^(%s,%s)(x) = P_n(1) * (Chebyshev polynomial of kind %d)_n(x) for all n: strong induction '
+                   '(base n = 0, 1; step uses the two recurrences and lemma/jacobi-at-one)' % (a, b, kind))
+    return lemma('C07', 'lemma/cheby%d-is-normalised-jacobi' % kind)(lem)
+
+
+for _k in (1, 2, 3, 4):
+    _cheb_lemma(_k)
+
+
+@harness('C07', 'cheby/def', variants=[dict(kind=k, x=xk) for k in (1, 2, 3, 4) for xk in XK],
+         fuc=['prysm.polynomials.cheby.cheby1', 'prysm.polynomials.cheby.cheby2', 'prysm.polynomials.cheby.cheby3',
+              'prysm.polynomials.cheby.cheby4'])
+def cheby_def(v):
+    """cheby{1..4}(n, x) equal T_n, U_n, V_n, W_n (three-term recurrences 2x F_{n-1} - F_{n-2}) for every n and x:
+    the code divides the right Jacobi polynomial by its value at 1 (callee jacobi = its contract) and the lemmas
+    cheby*-is-normalised-jacobi / jacobi-at-one close the gap."""
+    kind = v['kind']
+    d = CHEB[kind]
+    a, b, T, norm = d['a'], d['b'], d['T'], d['norm']
+    n = Int('n', 0)
+    x = _x(v['x'])
+    use_lemma('lemma/jacobi-at-one (positivity)', JAC.at(n, a, b, 1) > 0)
+    if isarray(x):
+        ix = tuple(skolem(dd, 'q%d' % k) for k, dd in enumerate(x.shape))
+        xe = elem(x, *ix)
+    else:
+        xe = x
+    use_lemma('lemma/cheby%d-is-normalised-jacobi' % kind, norm(n) * JAC.at(n, a, b, xe) == JAC.at(n, a, b, 1) * T.at(n, xe))
+    with stub('prysm.polynomials.cheby', 'jacobi', lambda n_, a_, b_, x_: spec_over(JAC, n_, (a_, b_), x_)):
+        out = call('prysm.polynomials.cheby.cheby%d' % kind, n, x)
+    if isarray(x):
+        check('equals-definition', And(shape_is(out, *x.shape), approx(elem(out, *ix), T.at(n, xe), 1e-7)))
+    else:
+        check('equals-definition', approx(out, T.at(n, xe), 1e-7))
+
+
+@lemma('C07', 'lemma/jacobi-at-one-positive')
+def jac_at_one_pos():
+    """P_n^(a,b)(1) > 0 for a > -1: induction with lemma/jacobi-at-one."""
+    a, b = Real('alpha'), Real('beta')
+    assume(And(a > -1, b > -1))
+    check('base', JAC.at(0, a, b, 1) > 0)
+    n = Int('n', 1)
+    assume(JAC.at(n - 1, a, b, 1) > 0)
+    use_lemma('lemma/jacobi-at-one', n * JAC.at(n, a, b, 1) == (n + a) * JAC.at(n - 1, a, b, 1))
+    check('step', JAC.at(n, a, b, 1) > 0)
+
+
+# ---------------------------------------------------------------------------------- Zernike, XY, Hopkins
+def _polar(kind):
+    if kind == 'scalar':
+        return Real('r', 0, 1), Real('t')
+    if kind == '1d':
+        N = Int('N', 1)
+        return Array('r', (N,), lo=0, hi=1), Array('t', (N,))
+    H, W = Int('H', 1), Int('W', 1)
+    return Array('r', (H, W), lo=0, hi=1), Array('t', (H, W))
+
+
+def _at(v, ix):
+    return elem(v, *ix) if isarray(v) else v
+
+
+def _pw(base, e):
+    return base ** e
+
+
+@harness('C07', 'zernike_nm/def', variants=[dict(x=xk, norm=nm) for xk in XK for nm in (True, False)],
+         fuc=['prysm.polynomials.zernike.zernike_nm', 'prysm.polynomials.zernike.zernike_norm', 'prysm.mathops.kronecker'])
+def zernike_def(v):
+    """Z_n^m = N_nm r^|m| P^(0,|m|)_{(n-|m|)/2}(2r^2-1) {cos(m t) | sin(|m| t) | 1}, N = sqrt(2(n+1)/(1+delta_m0)),
+    for every valid (n, m) (callee jacobi = its contract)."""
+    n, m = Int('n', 0), Int('m')
+    am = ite(m >= 0, m, -m)
+    assume(And(am <= n, (n - am) % 2 == 0))
+    r, t = _polar(v['x'])
+    with stub('prysm.polynomials.zernike', 'jacobi', lambda n_, a_, b_, x_: spec_over(JAC, n_, (a_, b_), x_)):
+        out = call('prysm.polynomials.zernike.zernike_nm', n, m, r, t, norm=v['norm'])
+    ix = tuple(skolem(d, 'q%d' % k) for k, d in enumerate(r.shape)) if isarray(r) else ()
+    re, te = _at(r, ix), _at(t, ix)
+    rad = JAC.at((n - am) // 2, 0, am, 2 * re * re - 1)
+    # python branching: on each path the code has already decided the sign of m, so no new fork arises
+    if m == 0:
+        az = 1
+    elif m < 0:
+        az = _pw(re, am) * sin(am * te)
+    else:
+        az = _pw(re, am) * cos(m * te)
+    if v['norm']:
+        N = sqrt(2 * (n + 1) / (1 + (1 if m == 0 else 0)))
+    else:
+        N = 1
+    want = rad * az * N
+    got = _at(out, ix)
+    check('equals-definition', And(shape_is(out, *r.shape) if isarray(r) else True, approx(got, want, 1e-7)))
+
+
+@harness('C07', 'xy/def', variants=[dict(cg=c, rank=k) for c in (True, False) for k in (1, 2)], fuc=['prysm.polynomials.xy.xy'])
+def xy_def(v):
+    """xy(m, n, x, y) = x^m y^n on the grid the arguments define."""
+    m, n = Int('m', 0), Int('n', 0)
+    H, W = Int('H', 1), Int('W', 1)
+    if v['rank'] == 2:
+        x, y = Array('x', (H, W)), Array('y', (H, W))
+        i, j = idx(H, 'i'), idx(W, 'j')
+        if v['cg']:
+            # cartesian grid: x varies along columns only, y along rows only (what optimize_xy_separable assumes)
+            assume(And(elem(x, i, j) == elem(x, 0, j), elem(y, i, j) == elem(y, i, 0)))
+        if MODE != 'symbolic':
+            import numpy as np
+            if v['cg']:
+                x[:] = x[0:1, :]
+                y[:] = y[:, 0:1]
+        out = call('prysm.polynomials.xy.xy', m, n, x, y, cartesian_grid=v['cg'])
+        check('value', And(shape_is(out, H, W), approx(elem(out, i, j), _pw(elem(x, i, j), m) * _pw(elem(y, i, j), n), 1e-7)))
+    else:
+        x, y = Array('x', (W,)), Array('y', (H,))
+        i, j = idx(H, 'i'), idx(W, 'j')
+        out = call('prysm.polynomials.xy.xy', m, n, x, y, cartesian_grid=v['cg']) if v['cg'] else None
+        if v['cg']:
+            check('value', And(shape_is(out, H, W), approx(elem(out, i, j), _pw(elem(x, j), m) * _pw(elem(y, i), n), 1e-7)))
+        else:
+            check('not-applicable', True)
+
+
+@harness('C07', 'hopkins/def', variants=XK, fuc=['prysm.polynomials.hopkins'])
+def hopkins_def(kind):
+    """W_abc = H^c r^b cos(a t) (a >= 0) or H^c r^b sin(|a| t) (a < 0)."""
+    a, b, c = Int('a'), Int('b', 0), Int('c', 0)
+    r, t = _polar(kind)
+    Hf = Real('Hfield')
+    out = call('prysm.polynomials.hopkins', a, b, c, r, t, Hf)
+    ix = tuple(skolem(d, 'q%d' % k) for k, d in enumerate(r.shape)) if isarray(r) else ()
+    re, te = _at(r, ix), _at(t, ix)
+    if MODE == 'symbolic':
+        trig = ite(a < 0, sin(abs(a) * te), cos(a * te))
+    else:
+        import math
+        trig = math.sin(abs(a) * te) if a < 0 else math.cos(a * te)
+    check('equals-definition', approx(_at(out, ix), trig * _pw(re, b) * _pw(Hf, c), 1e-7))
+
+
+@harness('C07', 'Qcon/def', variants=XK, fuc=['prysm.polynomials.qpoly.Qcon'])
+def qcon_def(kind):
+    """Qcon_n(x) = x^4 P_n^(0,4)(2x^2 - 1)  (Forbes 2007; callee jacobi = its contract)."""
+    n = Int('n', 0)
+    x = _x(kind)
+    with stub('prysm.polynomials.qpoly', 'jacobi', lambda n_, a_, b_, x_: spec_over(JAC, n_, (a_, b_), x_)):
+        out = call('prysm.polynomials.qpoly.Qcon', n, x)
+    ix = tuple(skolem(d, 'q%d' % k) for k, d in enumerate(x.shape)) if isarray(x) else ()
+    xe = _at(x, ix)
+    check('equals-definition', approx(_at(out, ix), JAC.at(n, 0, 4, 2 * xe * xe - 1) * xe * xe * xe * xe, 1e-7))
+
+
+# ---------------------------------------------------------------------------------- orthogonality: BOUNDED
+@harness('C07', 'bounded/orthogonality', kind='bounded', seeds=1,
+         variants=['zernike-disk', 'jacobi-weight', 'qbfs-slopes', 'hermite-laguerre-weights'],
+         fuc=['prysm.polynomials.zernike.zernike_nm', 'prysm.polynomials.jacobi.jacobi', 'prysm.polynomials.qpoly.Qbfs',
+              'prysm.polynomials.hermite.hermite_He', 'prysm.polynomials.hermite.hermite_H', 'prysm.polynomials.laguerre.laguerre'])
+def orthogonality(which):
+    """BOUNDED (a theorem about the definitions, checked on the real functions by exact Gauss quadrature, not proved):
+    Zernike unit RMS / mutual orthogonality over the unit disk for n <= 8 (quick) / 14; Jacobi-family orthogonality under
+    (1-x)^a (1+x)^b for n <= 10 / 20 and four (a,b) incl. half-integers; Qbfs slope orthonormality under Forbes'
+    (2/pi) int_0^1 . (1-u^2)^(-1/2) du for n <= 6 / 10; Hermite/Laguerre under their weights."""
+    import os
+    import numpy as np
+    from scipy.special import roots_jacobi, roots_legendre, roots_hermite, roots_hermitenorm, roots_genlaguerre
+    big = os.environ.get('VERIF_TIER', 'quick') == 'thorough'
+    if which == 'zernike-disk':
+        nmax = 14 if big else 8
+        znm = get('prysm.polynomials.zernike.zernike_nm')
+        xr, wr = roots_legendre(nmax + 4)
+        r = (xr + 1) / 2
+        wr = wr / 2 * r                      # int_0^1 f(r) r dr
+        K = 2 * nmax + 3
+        th = np.arange(K) * 2 * np.pi / K
+        R, T = np.meshgrid(r, th)
+        W = np.outer(np.full(K, 2 * np.pi / K), wr) / np.pi
+        nms = [(n, m) for n in range(nmax + 1) for m in range(-n, n + 1, 2)]
+        Z = np.array([znm(n, m, R.copy(), T.copy(), norm=True) for n, m in nms])
+        G = np.einsum('iab,jab,ab->ij', Z, Z, W)
+        check('orthonormal', bool(np.allclose(G, np.eye(len(nms)), atol=1e-9)))
+        note('bounded: zernike orthonormality over the disk, %d modes (n <= %d), exact quadrature' % (len(nms), nmax))
+    elif which == 'jacobi-weight':
+        nmax = 20 if big else 10
+        jac = get('prysm.polynomials.jacobi.jacobi')
+        ok = True
+        for a, b in ((0.0, 0.0), (-0.5, -0.5), (0.5, -0.5), (1.5, 2.0), (0.0, 4.0)):
+            x, w = roots_jacobi(nmax + 2, a, b)
+            P = np.array([jac(n, a, b, x) for n in range(nmax + 1)])
+            G = np.einsum('ia,ja,a->ij', P, P, w)
+            off = G - np.diag(np.diag(G))
+            ok = ok and bool(np.allclose(off, 0, atol=1e-9 * max(1, np.abs(np.diag(G)).max()))) and bool((np.diag(G) > 0).all())
+        check('orthogonal-under-weight', ok)
+        note('bounded: jacobi orthogonality n <= %d, five (alpha,beta)' % nmax)
+    elif which == 'qbfs-slopes':
+        nmax = 10 if big else 6
+        Q = get('prysm.polynomials.qpoly.Qbfs')
+        x, w = roots_jacobi(4 * nmax + 40, -0.5, -0.5)
+        u, ww = x[x > 0], w[x > 0]
+        h = 1e-6
+        S = np.array([(Q(n, u + h) - Q(n, u - h)) / (2 * h) for n in range(nmax + 1)])
+        G = np.einsum('ia,ja,a->ij', S, S, ww) * 2 / np.pi
+        check('slope-orthonormal', bool(np.allclose(G, np.eye(nmax + 1), atol=1e-5)))
+        note('bounded: Qbfs slope orthonormality n <= %d (central differences, Gauss-Chebyshev quadrature)' % nmax)
+    else:
+        nmax = 14 if big else 8
+        He, Hh, Lg = get('prysm.polynomials.hermite.hermite_He'), get('prysm.polynomials.hermite.hermite_H'), get('prysm.polynomials.laguerre.laguerre')
+        ok = True
+        for f, roots in ((He, roots_hermitenorm), (Hh, roots_hermite)):
+            x, w = roots(nmax + 2)
+            P = np.array([f(n, x) for n in range(nmax + 1)])
+            G = np.einsum('ia,ja,a->ij', P, P, w)
+            off = G - np.diag(np.diag(G))
+            ok = ok and bool(np.allclose(off / np.sqrt(np.outer(np.diag(G), np.diag(G))), 0, atol=1e-9))
+        for al in (0.0, 1.5):
+            x, w = roots_genlaguerre(nmax + 2, al)
+            P = np.array([Lg(n, al, x) for n in range(nmax + 1)])
+            G = np.einsum('ia,ja,a->ij', P, P, w)
+            off = G - np.diag(np.diag(G))
+            ok = ok and bool(np.allclose(off / np.sqrt(np.outer(np.diag(G), np.diag(G))), 0, atol=1e-9))
+        check('orthogonal-under-weight', ok)
